@@ -113,7 +113,7 @@ theorem C18_gen_v2000_writer :
     Gen.C18.bondLineShape = [("fmt", ">3d", "plus:1"), ("fmt", ">3d", "plus:1"), ("fmt", ">3d", "value"), ("fmt", ">3d", "const:0"), ("fmt", ">3d", "const:0"), ("fmt", ">3d", "const:0"), ("fmt", ">3d", "const:0")] ∧
     Gen.C18.chargeHeadShape = [("lit", "M  CHG", ""), ("fmt", ">3d", "call:len")] ∧
     Gen.C18.chargeEntryShape = [("lit", " ", ""), ("fmt", ">3d", "plus:1"), ("lit", " ", ""), ("fmt", ">3d", "value")] ∧
-    Gen.C18.v2000LineOrder = ["name:counts_line", "name:atom_lines", "name:bond_lines", "name:charge_lines", "lit:M  END"] ∧
+    Gen.C18.v2000LineOrder = ["role:counts", "role:atoms", "role:bonds", "role:charges", "lit:M  END"] ∧
     Gen.C18.elemGuard = ("Gt", 3) ∧
     Gen.C18.v2000GuardOrder = true ∧
     Gen.C18.writerPlus = [1] := by
@@ -124,11 +124,11 @@ theorem C18_gen_v2000_writer :
 theorem C18_gen_v3000_writer :
     Gen.C18.compatLine = "  0  0  0  0  0  0  0  0  0  0999 V3000" ∧
     Gen.C18.v3000CountsShape = [("lit", "COUNTS ", ""), ("fmt", "", "value"), ("lit", " ", ""), ("fmt", "", "value"), ("lit", " 0 0 0", "")] ∧
-    Gen.C18.v3000AtomShape = [("fmt", "", "plus:1"), ("lit", " ", ""), ("fmt", "", "call:_quote"), ("lit", " ", ""), ("fmt", ".4f", "value"), ("lit", " ", ""), ("fmt", ".4f", "value"), ("lit", " ", ""), ("fmt", ".4f", "value"), ("lit", " 0 ", ""), ("fmt", "", "call:_to_property")] ∧
+    Gen.C18.v3000AtomShape = [("fmt", "", "plus:1"), ("lit", " ", ""), ("fmt", "", "call:private"), ("lit", " ", ""), ("fmt", ".4f", "value"), ("lit", " ", ""), ("fmt", ".4f", "value"), ("lit", " ", ""), ("fmt", ".4f", "value"), ("lit", " 0 ", ""), ("fmt", "", "call:private")] ∧
     Gen.C18.v3000BondShape = [("fmt", "", "plus:1"), ("lit", " ", ""), ("fmt", "", "value"), ("lit", " ", ""), ("fmt", "", "plus:1"), ("lit", " ", ""), ("fmt", "", "plus:1")] ∧
-    Gen.C18.v3000Skeleton = ["lit:BEGIN CTAB", "name:counts_line", "lit:BEGIN ATOM", "name:atom_lines", "lit:END ATOM", "lit:BEGIN BOND", "name:bond_lines", "lit:END BOND", "lit:END CTAB"] ∧
+    Gen.C18.v3000Skeleton = ["lit:BEGIN CTAB", "role:counts", "lit:BEGIN ATOM", "role:atoms", "lit:END ATOM", "lit:BEGIN BOND", "role:bonds", "lit:END BOND", "lit:END CTAB"] ∧
     Gen.C18.v30Prefix = "M  V30 " ∧
-    Gen.C18.v3000Return = ["name:V2000_COMPATIBILITY_LINE", "name:lines", "lit:M  END"] ∧
+    Gen.C18.v3000Return = ["name:V2000_COMPATIBILITY_LINE", "role:lines", "lit:M  END"] ∧
     Gen.C18.toPropertyShape = ["Eq:0", "CHG={}", "''"] ∧
     Gen.C18.quoteShape = ["Or", "In:' '", "Eq:0", "\"{}\""] := by
   decide
@@ -161,10 +161,10 @@ theorem C18_gen_sdf :
     Gen.C18.keySerializePieces = ["init:> ", "DT{number} ", "<{name}> ", "{registry_internal} ", "({registry_external}) "] ∧
     Gen.C18.valueChecks = [">", "\n", "Eq:0", "Eq:0", "call:startswith", "NotEq:/splitlines"] ∧
     Gen.C18.mdDeserializeStrings = [">", "\n"] ∧
-    Gen.C18.ctabStopShape = ["args:2", "start:_N_HEADER", "M  END", "ret:+1"] ∧
-    Gen.C18.ctabLinesShape = ["enumerate-from:N_HEADER/start=N_HEADER", "M  END"] ∧
-    Gen.C18.delimiterTest = ["startswith:_RECORD_DELIMITER"] ∧
-    Gen.C18.delimiterCheck = ["startswith:_RECORD_DELIMITER"] ∧
+    Gen.C18.ctabStopShape = ["args:2", "start:3", "M  END", "ret:+1"] ∧
+    Gen.C18.ctabLinesShape = ["forward-from:3", "M  END"] ∧
+    Gen.C18.delimiterTest = ["startswith:delimiter"] ∧
+    Gen.C18.delimiterCheck = ["startswith:delimiter"] ∧
     Gen.C18.convertShape = ["Molecule", "NotIn"] ∧
     Gen.C18.addConformerKeywords = ["assignId=True"] := by
   decide
@@ -181,7 +181,7 @@ theorem C18_gen_header_fields :
 /-- Regenerated from the source on every run: the exception classes the anchored functions raise, in source order — the classes the model's `Err` values print and the oracle demands.  Each conjunct is what the hand-written model
 (Model/C18*.lean) and the adapters hard-code. -/
 theorem C18_gen_exceptions :
-    Gen.C18.raisesTable = [("write_structure_to_ctab", ["TypeError", "BadStructureError", "BadStructureError", "ValueError", "ValueError"]), ("_write_structure_to_ctab_v2000", ["BadStructureError", "BadStructureError"]), ("_write_structure_to_ctab_v3000", ["BadStructureError"]), ("read_structure_from_ctab", ["InvalidFileError", "InvalidFileError"]), ("_read_structure_from_ctab_v3000", ["InvalidFileError", "NotImplementedError"]), ("_get_block_v3000", ["InvalidFileError"]), ("Key.__post_init__", ["ValueError", "ValueError", "ValueError", "ValueError", "ValueError"]), ("Key.deserialize", ["DeserializationError", "DeserializationError"]), ("Metadata.deserialize", ["DeserializationError"]), ("_check_metadata_value", ["ValueError", "ValueError", "ValueError", "ValueError"]), ("_add_key_value_pair", ["DeserializationError"]), ("SDRecord.get_structure", ["InvalidFileError"]), ("SDFile.serialize", ["SerializationError", "SerializationError"]), ("SDFile.__getitem__", ["DeserializationError"]), ("SDFile.__setitem__", ["TypeError"]), ("SDFile.record", ["ValueError", "ValueError"]), ("Header.serialize", ["ValueError", "ValueError"]), ("MOLFile.get_structure", ["InvalidFileError"]), ("to_mol", ["BadStructureError", "BadStructureError"]), ("from_mol", ["BadStructureError"])] := by
+    Gen.C18.raisesTable = [("write_structure_to_ctab", ["TypeError", "BadStructureError", "BadStructureError", "ValueError", "ValueError"]), ("v2000-writer", ["BadStructureError", "BadStructureError"]), ("v3000-writer", ["BadStructureError"]), ("read_structure_from_ctab", ["InvalidFileError", "InvalidFileError"]), ("v3000-reader", ["InvalidFileError", "NotImplementedError"]), ("v3000-block-scan", ["InvalidFileError"]), ("Key.__post_init__", ["ValueError", "ValueError", "ValueError", "ValueError", "ValueError"]), ("Key.deserialize", ["DeserializationError", "DeserializationError"]), ("Metadata.deserialize", ["DeserializationError"]), ("metadata-value-check", ["ValueError", "ValueError", "ValueError", "ValueError"]), ("metadata-add-pair", ["DeserializationError"]), ("SDRecord.get_structure", ["InvalidFileError"]), ("SDFile.serialize", ["SerializationError", "SerializationError"]), ("SDFile.__getitem__", ["DeserializationError"]), ("SDFile.__setitem__", ["TypeError"]), ("SDFile.record", ["ValueError", "ValueError"]), ("Header.serialize", ["ValueError", "ValueError"]), ("MOLFile.get_structure", ["InvalidFileError"]), ("to_mol", ["BadStructureError", "TypeError", "BadStructureError"]), ("from_mol", ["BadStructureError"])] := by
   decide
 
 /-- Regenerated from the source on every run: the default argument values of the public entry points and of the `Header` / `Metadata.Key` fields that the adapters and the model assume (`default_bond_type=BondType.ANY`, `version=None`, `record_name=None`, `kekulize=False`, …).  Each conjunct is what the hand-written model
@@ -206,7 +206,7 @@ theorem C18_gen_model_literals :
           (Gen.C18.v30Prefix ++ ·)) ++ ["M  END"]) ∧
     (Gen.C18.nHeader.1 = 3 ∧ ctabStop 0 [[], [], mEnd, mEnd] = 4) ∧
     (Gen.C18.raisesTable.lookup "write_structure_to_ctab").map (·.getLast?) = some (some (Err.toString (match writeCtab ⟨[], []⟩ 0 .unknown with | .error e => e | .ok _ => .other ""))) ∧
-    (Gen.C18.raisesTable.lookup "_write_structure_to_ctab_v2000").map (·.head?) = some (some (Err.toString .badStructure)) ∧
+    (Gen.C18.raisesTable.lookup "v2000-writer").map (·.head?) = some (some (Err.toString .badStructure)) ∧
     (Gen.C18.raisesTable.lookup "Key.deserialize").map (·.head?) = some (some (Err.toString deserErr)) ∧
     (Gen.C18.raisesTable.lookup "SDFile.serialize").map (·.getLast?) = some (some (Err.toString serErr)) := by
   decide
